@@ -238,7 +238,7 @@ def lcModel (fn : String) (v : BitVec 64) (m : List Byte) (base : BitVec 16) : O
 
 def stepLine (_ : Unit) (line : String) : Unit × String :=
   let r : Option String :=
-    match words line with
+    match (match words line with | "twin" :: rest => rest | ws => ws) with
     | ["reset"] => some "ok"
     | ["toa", k, b, v] => do
         if !isKind k then none
